@@ -10,6 +10,7 @@ package graph
 import (
 	"context"
 	"encoding/hex"
+	"errors"
 	"fmt"
 	"math/rand/v2"
 	"regexp"
@@ -153,12 +154,19 @@ type vWorld struct {
 	failStart map[string]bool
 	failStop  map[string]bool
 	connCfg   map[int]vConnCfg // connector id -> its configuration (selection behaviour)
-	notRouter []string         // connector instances whose next consumer was not the pipeline router
+	// failConsume: exporters (record, then return an error) and processors (forward, then return an error) whose Consume fails;
+	// routing must not change (every next consumer is still called once: fan-out law, property C06)
+	failConsume map[string]bool
+	consumeErrs int
+	// failCreate: receiver / exporter / connector instance keys whose factory returns an error (Build fails in buildComponents,
+	// after other components were already created)
+	failCreate map[string]bool
+	notRouter  []string // connector instances whose next consumer was not the pipeline router
 }
 
 func newVWorld() *vWorld {
 	return &vWorld{creates: map[string]int{}, recvNext: map[string]any{}, failStart: map[string]bool{}, failStop: map[string]bool{},
-		connCfg: map[int]vConnCfg{}}
+		connCfg: map[int]vConnCfg{}, failConsume: map[string]bool{}, failCreate: map[string]bool{}}
 }
 
 type vNode struct {
@@ -223,7 +231,7 @@ func (n *vNode) handle(ctx context.Context, trail string) error {
 	switch n.kind {
 	case 'e':
 		n.w.delivered = append(n.w.delivered, n.label+"|"+trail)
-		return nil
+		return n.consumeErr()
 	case 'c':
 		if !n.conn.selective {
 			return vSend(ctx, n.next, n.outSig, vAppend(trail, n.label))
@@ -273,12 +281,20 @@ func (n *vNode) handle(ctx context.Context, trail string) error {
 	return fmt.Errorf("unexpected kind %c", n.kind)
 }
 
+func (n *vNode) consumeErr() error {
+	if n.w.failConsume[n.label] {
+		n.w.consumeErrs++
+		return fmt.Errorf("verif consume failure %s", n.label)
+	}
+	return nil
+}
+
 func (n *vNode) ConsumeTraces(ctx context.Context, d ptrace.Traces) error {
 	a := d.ResourceSpans().At(0).Resource().Attributes()
 	v, _ := a.Get("trail")
 	if n.kind == 'p' { // processors mutate in place (MutatesData=true) and pass the same payload on
 		a.PutStr("trail", vAppend(v.Str(), n.label))
-		return n.next.(consumer.Traces).ConsumeTraces(ctx, d)
+		return errors.Join(n.next.(consumer.Traces).ConsumeTraces(ctx, d), n.consumeErr())
 	}
 	return n.handle(ctx, v.Str())
 }
@@ -288,7 +304,7 @@ func (n *vNode) ConsumeMetrics(ctx context.Context, d pmetric.Metrics) error {
 	v, _ := a.Get("trail")
 	if n.kind == 'p' {
 		a.PutStr("trail", vAppend(v.Str(), n.label))
-		return n.next.(consumer.Metrics).ConsumeMetrics(ctx, d)
+		return errors.Join(n.next.(consumer.Metrics).ConsumeMetrics(ctx, d), n.consumeErr())
 	}
 	return n.handle(ctx, v.Str())
 }
@@ -298,7 +314,7 @@ func (n *vNode) ConsumeLogs(ctx context.Context, d plog.Logs) error {
 	v, _ := a.Get("trail")
 	if n.kind == 'p' {
 		a.PutStr("trail", vAppend(v.Str(), n.label))
-		return n.next.(consumer.Logs).ConsumeLogs(ctx, d)
+		return errors.Join(n.next.(consumer.Logs).ConsumeLogs(ctx, d), n.consumeErr())
 	}
 	return n.handle(ctx, v.Str())
 }
@@ -308,24 +324,30 @@ func (n *vNode) ConsumeProfiles(ctx context.Context, d pprofile.Profiles) error 
 	v, _ := a.Get("trail")
 	if n.kind == 'p' {
 		a.PutStr("trail", vAppend(v.Str(), n.label))
-		return n.next.(xconsumer.Profiles).ConsumeProfiles(ctx, d)
+		return errors.Join(n.next.(xconsumer.Profiles).ConsumeProfiles(ctx, d), n.consumeErr())
 	}
 	return n.handle(ctx, v.Str())
 }
 
 func vDefaultCfg() component.Config { return &struct{}{} }
 
-func (w *vWorld) mkRecv(id component.ID, sig int, next any) *vNode {
+func (w *vWorld) mkRecv(id component.ID, sig int, next any) (*vNode, error) {
 	key := fmt.Sprintf("r%d:%d", vIDNum(id), sig)
+	if w.failCreate[key] {
+		return nil, fmt.Errorf("verif create failure %s", key)
+	}
 	w.creates[key]++
 	w.recvNext[key] = next
-	return &vNode{w: w, kind: 'r', label: key}
+	return &vNode{w: w, kind: 'r', label: key}, nil
 }
 
-func (w *vWorld) mkExp(id component.ID, sig int) *vNode {
+func (w *vWorld) mkExp(id component.ID, sig int) (*vNode, error) {
 	key := fmt.Sprintf("e%d:%d", vIDNum(id), sig)
+	if w.failCreate[key] {
+		return nil, fmt.Errorf("verif create failure %s", key)
+	}
 	w.creates[key]++
-	return &vNode{w: w, kind: 'e', label: key}
+	return &vNode{w: w, kind: 'e', label: key}, nil
 }
 
 func (w *vWorld) mkProc(id component.ID, next any) *vNode {
@@ -349,6 +371,9 @@ func (w *vWorld) mkConn(id component.ID, es, rs int, next any) (*vNode, error) {
 	case xconnector.ProfilesRouterAndConsumer:
 		isRouter = rs == 3
 	}
+	if w.failCreate[key] {
+		return nil, fmt.Errorf("verif create failure %s", key)
+	}
 	if !isRouter {
 		w.notRouter = append(w.notRouter, key)
 		return nil, fmt.Errorf("verif: next consumer of %s is not the pipeline router (%T)", key, next)
@@ -360,16 +385,16 @@ func (w *vWorld) mkConn(id component.ID, es, rs int, next any) (*vNode, error) {
 func (w *vWorld) recvFactory(t component.Type) receiver.Factory {
 	return xreceiver.NewFactory(t, vDefaultCfg,
 		xreceiver.WithTraces(func(_ context.Context, s receiver.Settings, _ component.Config, next consumer.Traces) (receiver.Traces, error) {
-			return w.mkRecv(s.ID, 0, next), nil
+			return w.mkRecv(s.ID, 0, next)
 		}, component.StabilityLevelStable),
 		xreceiver.WithMetrics(func(_ context.Context, s receiver.Settings, _ component.Config, next consumer.Metrics) (receiver.Metrics, error) {
-			return w.mkRecv(s.ID, 1, next), nil
+			return w.mkRecv(s.ID, 1, next)
 		}, component.StabilityLevelStable),
 		xreceiver.WithLogs(func(_ context.Context, s receiver.Settings, _ component.Config, next consumer.Logs) (receiver.Logs, error) {
-			return w.mkRecv(s.ID, 2, next), nil
+			return w.mkRecv(s.ID, 2, next)
 		}, component.StabilityLevelStable),
 		xreceiver.WithProfiles(func(_ context.Context, s receiver.Settings, _ component.Config, next xconsumer.Profiles) (xreceiver.Profiles, error) {
-			return w.mkRecv(s.ID, 3, next), nil
+			return w.mkRecv(s.ID, 3, next)
 		}, component.StabilityLevelStable))
 }
 
@@ -392,16 +417,16 @@ func (w *vWorld) procFactory(t component.Type) processor.Factory {
 func (w *vWorld) expFactory(t component.Type) exporter.Factory {
 	return xexporter.NewFactory(t, vDefaultCfg,
 		xexporter.WithTraces(func(_ context.Context, s exporter.Settings, _ component.Config) (exporter.Traces, error) {
-			return w.mkExp(s.ID, 0), nil
+			return w.mkExp(s.ID, 0)
 		}, component.StabilityLevelStable),
 		xexporter.WithMetrics(func(_ context.Context, s exporter.Settings, _ component.Config) (exporter.Metrics, error) {
-			return w.mkExp(s.ID, 1), nil
+			return w.mkExp(s.ID, 1)
 		}, component.StabilityLevelStable),
 		xexporter.WithLogs(func(_ context.Context, s exporter.Settings, _ component.Config) (exporter.Logs, error) {
-			return w.mkExp(s.ID, 2), nil
+			return w.mkExp(s.ID, 2)
 		}, component.StabilityLevelStable),
 		xexporter.WithProfiles(func(_ context.Context, s exporter.Settings, _ component.Config) (xexporter.Profiles, error) {
-			return w.mkExp(s.ID, 3), nil
+			return w.mkExp(s.ID, 3)
 		}, component.StabilityLevelStable))
 }
 
@@ -782,6 +807,8 @@ func vErrClass(err error) string {
 		return "err=cycle"
 	case strings.Contains(msg, "but not used in any supported"):
 		return "err=connector"
+	case strings.Contains(msg, "verif create failure"):
+		return "err=create"
 	}
 	return "err=other:" + hex.EncodeToString([]byte(msg))
 }
@@ -938,6 +965,34 @@ func TestVerifC09Graph(t *testing.T) {
 			out.Flush()
 			continue
 		}
+		// 5%: one receiver / exporter factory call fails (a key the configuration uses); Build must return the error
+		if c >= len(corpus) && rnd.IntN(20) == 0 {
+			p := cfg.pipes[rnd.IntN(len(cfg.pipes))]
+			isConn := func(x int) bool {
+				for _, cc := range cfg.conns {
+					if cc.id == x {
+						return true
+					}
+				}
+				return false
+			}
+			var cand []string
+			for _, x := range p.recv {
+				if !isConn(x) {
+					cand = append(cand, fmt.Sprintf("r%d:%d", x, p.sig))
+				}
+			}
+			for _, x := range p.exps {
+				if !isConn(x) {
+					cand = append(cand, fmt.Sprintf("e%d:%d", x, p.sig))
+				}
+			}
+			if len(cand) > 0 {
+				k := cand[rnd.IntN(len(cand))]
+				w.failCreate[k] = true
+				out.Linef("op failcreate %s", k)
+			}
+		}
 		g, err := vBuild(set)
 		out.Linef("op build")
 		cls := vErrClass(err)
@@ -966,11 +1021,14 @@ func TestVerifC09Graph(t *testing.T) {
 		for _, k := range w.notRouter {
 			out.Linef("viol sig=C09/connector/next-consumer-is-not-the-pipeline-router %s", k)
 		}
+		if err != nil && cls == "err=create" && len(w.log) > 0 {
+			out.Linef("viol sig=C09/reject/component-started-though-a-factory-failed %s", vHex(strings.Join(w.log, ",")))
+		}
 		if err != nil {
 			if cls == "err=cycle" {
 				out.Linef("tr cycle %s", strings.Join(vCycleTokens(err.Error()), " "))
 			}
-			if len(w.creates)+len(w.procs) > 0 {
+			if len(w.creates)+len(w.procs) > 0 && cls != "err=create" {
 				out.Linef("viol sig=C09/reject/components-created-before-rejection creates=%d", len(w.creates)+len(w.procs))
 			}
 			if len(w.log) > 0 {
@@ -982,6 +1040,26 @@ func TestVerifC09Graph(t *testing.T) {
 			out.Linef("obs nodes %s", strings.Join(toks, " "))
 			if orphan > 0 {
 				out.Linef("viol sig=C09/sharing/processor-instance-not-in-any-pipeline n=%d", orphan)
+			}
+			// 20%: one to three exporters / processors fail in Consume (after recording / after forwarding): the route multisets must not change
+			if rnd.IntN(5) == 0 {
+				var cand []string
+				for k := range w.creates {
+					if k[0] == 'e' {
+						cand = append(cand, k)
+					}
+				}
+				for _, pn := range w.procs {
+					cand = append(cand, pn.label)
+				}
+				sort.Strings(cand)
+				for nf := 1 + rnd.IntN(3); nf > 0 && len(cand) > 0; nf-- {
+					k := cand[rnd.IntN(len(cand))]
+					if !w.failConsume[k] {
+						w.failConsume[k] = true
+						out.Linef("op failconsume %s", k)
+					}
+				}
 			}
 			keys := make([]string, 0, len(w.recvNext))
 			for k := range w.recvNext {
@@ -1000,7 +1078,7 @@ func TestVerifC09Graph(t *testing.T) {
 							w.delivered = append(w.delivered, fmt.Sprintf("panic|%s", vHex(fmt.Sprint(r))))
 						}
 					}()
-					if e := vSend(context.Background(), w.recvNext[k], sig, ""); e != nil {
+					if e := vSend(context.Background(), w.recvNext[k], sig, ""); e != nil && !strings.Contains(e.Error(), "verif consume failure") {
 						w.delivered = append(w.delivered, "error|"+vHex(e.Error()))
 					}
 				}()
@@ -1014,6 +1092,7 @@ func TestVerifC09Graph(t *testing.T) {
 				}
 			}
 			out.Linef("stat built 1")
+			out.Linef("stat consume_errors_injected %d", w.consumeErrs)
 			out.Linef("stat routes %d", len(keys))
 			out.Linef("stat deliveries %d", deliveries)
 			out.Linef("stat connector_hops_max_%d 1", maxhops)
